@@ -202,6 +202,7 @@ func (b *bufs) outside() bool {
 
 func main() {
 	r := common.Start("C08", "model_checking")
+	r.ColdStart(coldProbes())
 	a := newAgg()
 	lenHelpers(r, a)
 	cbcAll(r, a)
